@@ -1908,8 +1908,12 @@ fn names_nesting_program(rng: &mut Rng, counter: &mut usize, thorough: bool) -> 
     call(rng, "before the outermost item", false, &mut src);
     let positions_a = ["inside level 1, before level 2", "inside level 2, before level 3", "inside level 3"];
     let positions_b = ["", "inside level 2, after level 3", "inside level 1, after level 2"];
+    // same-name nesting: an inner item lists the name again; leaving it must not take the name from the outer item
+    let inner: Vec<usize> = levels.iter().copied().filter(|l| *l > k).collect();
+    let k2 = if present && !inner.is_empty() && rng.chance(1, 3) { Some(*rng.pick(&inner)) } else { None };
     for l in 0..3 {
         if l == k { src.push_str(&format!("{}{}\n", junk_indent(rng), attr)); }
+        if Some(l) == k2 { src.push_str(&format!("{}#[rustfmt::skip::macros({})]\n", junk_indent(rng), name)); }
         src.push_str(&format!("{}{}\n", junk_indent(rng), opens[l]));
         call(rng, positions_a[l], l >= k, &mut src);
     }
@@ -1922,7 +1926,7 @@ fn names_nesting_program(rng: &mut Rng, counter: &mut usize, thorough: bool) -> 
     let mut cfg = e2e_config(rng, thorough);
     cfg.retain(|(k, _)| k != "format_macro_bodies" && k != "format_macro_matchers" && k != "skip_macro_invocations");
     wide_enough(rng, &mut cfg, thorough);
-    NestProgram { src, calls, how: format!("{:?}, attribute on level {}", opens, k + 1), list, name, present, cfg }
+    NestProgram { src, calls, how: format!("{:?}{}, attribute on level {}", opens, k2.map(|l| format!(" (name listed again on level {})", l + 1)).unwrap_or_default(), k + 1), list, name, present, cfg }
 }
 
 fn part_e2e_scoped(o: &mut Outcome, rng: &mut Rng, thorough: bool) {
@@ -2002,6 +2006,7 @@ fn part_e2e_scoped(o: &mut Outcome, rng: &mut Rng, thorough: bool) {
         }
         let out = canon_newlines(&r.out, &pr.cfg);
         o.count(&format!("nest:{}:present={}", pr.how.rsplit(", ").next().unwrap_or(""), pr.present as u8));
+        if pr.how.contains("listed again") { o.count("nest:name-listed-again-on-an-inner-item"); }
         for (pos, text, in_item) in &pr.calls {
             let occ = count_occ(&out, text);
             o.direct_evals += 1;
